@@ -408,3 +408,28 @@ def nonneg_side_lemma(kind, which):
         i = z3.Int("%nn_i")
         return z3.And(N >= 0, z3.ForAll([i], z3.Implies(z3.And(i >= 0, i < N), z3.Select(W, i) >= 0)))
     return Lemma(f"nonneg_{which}_{kind}", params, hyps, lambda D, W, N, x, n: side_fn(kind, which)(D, W, x, n) >= 0, lambda D, W, N, *r: N)
+
+
+def sum_split_lemma(kind):
+    """sumr(A, lo, hi) = sumr(A, lo, mid) + sumr(A, mid, hi) for lo <= mid <= hi"""
+    from .tarr import sum_fn
+    s, A = _wsort(kind)
+    params = [("A", A), ("lo", z3.IntSort()), ("mid", z3.IntSort()), ("hi", z3.IntSort())]
+    f = sum_fn(kind)
+    return Lemma(f"sum_split_{kind}", params, lambda A, lo, mid, hi: z3.And(lo <= mid, mid <= hi),
+                 lambda A, lo, mid, hi, n: f(A, lo, mid + n) == f(A, lo, mid) + f(A, mid, mid + n),
+                 lambda A, lo, mid, hi: hi - mid)
+
+
+def sum_shift_lemma(kind):
+    """B[j] = A[off + j] for j < n: sumr(B, 0, n) = sumr(A, off, off + n)"""
+    from .tarr import sum_fn
+    s, A = _wsort(kind)
+    params = [("A", A), ("B", A), ("off", z3.IntSort()), ("len", z3.IntSort())]
+    f = sum_fn(kind)
+
+    def hyps(A_, B, off, ln):
+        j = z3.Int("%sh_j")
+        return z3.And(ln >= 0, z3.ForAll([j], z3.Implies(z3.And(j >= 0, j < ln), z3.Select(B, j) == z3.Select(A_, off + j))))
+    return Lemma(f"sum_shift_{kind}", params, hyps,
+                 lambda A_, B, off, ln, n: f(B, z3.IntVal(0), n) == f(A_, off, off + n), lambda A_, B, off, ln: ln)
